@@ -35,10 +35,18 @@ META = {
             'non-trivial = the executed schedule is not a serial execution of the sessions and at least one session '
             'writes. Program sets: hand-written conflict patterns (lost update, write skew, multi-attribute reads, '
             'read-after-flush) and random programs over read/write/inc/copy/flush/lock ops, with optimistic, '
-            'optimistic=False and immediate sessions, for_update objects, and exempt attribute kinds.',
+            'optimistic=False and immediate sessions, for_update objects, and exempt attribute kinds; plus the wider op '
+            'language: mid-session commit() (units of a session commit separately; locks end with the transaction), rows '
+            'created in the session, single-object obj.flush() after delete/update as first write, one-to-many members '
+            'read through the collection by different read kinds (len/bool/load/prefetch first, then iteration, sorted, '
+            'list, copy, `in`) followed by updates of the members while a writer re-links them.',
     'assumptions': ['SQLite only: the PostgreSQL half of the property (row versions under READ COMMITTED) is not executed',
                     'an attribute a session read and later overwrote itself (x = x + 1) is judged by serial '
                     'equivalence of the final state (lost-update reading of the title), not by the history check',
+                    'seeing the members of a one-to-many collection (iteration, sorted, list, copy, `in`) counts as a read of '
+                    'member.<reference> (pony marks it so); len/bool/count alone do not',
+                    'after a mid-session commit() a for_update object is no longer locked, so the history check applies to it again; '
+                    'attributes the session wrote itself at any time (incl. all attributes of a row it created) stay outside the history check',
                     'programs that touch optimistic=False / float / volatile attributes or for_update objects are '
                     'judged by the history check only (the property exempts them); their serial equivalence is counted, not judged',
                     'the property is per object ("every attribute the session read from that object"): programs in which an '
